@@ -47,7 +47,7 @@ META = {
     'probe_names': ['crash_between_truncate_and_write', 'crash_mid_write', 'crash_in_readback', 'crash_in_render',
                     'crash_before_paux', 'loads_to_nondict', 'dict_without_renderer', 'edited_owner',
                     'healed_after_fault', 'cross_ref_resolved', 'other_block_preserved', 'xr_reader_used',
-                    'corrupt_file_read'],
+                    'corrupt_file_read', 'save_failed_run_continued', 'ioerr_open_r', 'ioerr_write', 'ioerr_open_w'],
     'shrink_budget': 60,
     'enum_batch': {'quick': 6, 'thorough': 12},
 }
@@ -118,7 +118,7 @@ def generate(seed, tier):
                     if r.random() < 0.6:
                         docs[i]['refs'].append([j, it[1]])
     rf = R('faults')
-    kinds = ['crash', 'truncate', 'bitflip', 'zerotail', 'empty', 'delete', 'foreign-renderer',
+    kinds = ['crash', 'ioerr', 'truncate', 'bitflip', 'zerotail', 'empty', 'delete', 'foreign-renderer',
              'foreign-shape', 'not-a-pickle', 'edit']
     enabled = [k for k in kinds if rf.random() < 0.66] or ['crash']
     fault_free = rf.random() < 0.12          # separate fault-free population
@@ -139,6 +139,10 @@ def generate(seed, tier):
             win = rf.choice(['paux', 'paux', 'paux', 'render', 'any', 'early'])
             ops.append({'op': 'RUN', 'doc': ro.randrange(8), 'r': ro.randrange(2),
                         'crash': {'window': win, 'k': rf.randrange(1000), 'tear': rf.choice([0, 1, -1, -2, rf.randrange(4096), rf.randrange(64)])}})
+        elif kind == 'ioerr':
+            ops.append({'op': 'RUN', 'doc': ro.randrange(8), 'r': ro.randrange(2),
+                        'crash': {'ioerr': True, 'window': rf.choice(['paux', 'paux', 'restore']), 'k': rf.randrange(1000),
+                                  'tear': rf.choice([0, 1, rf.randrange(512)]), 'errno': rf.choice([28, 5, 13])}})
         elif kind == 'edit':
             ops.append({'op': 'EDIT', 'doc': ro.randrange(8), 'how': ro.choice(['drop', 'add', 'retitle']), 'k': ro.randrange(8)})
         else:
@@ -334,7 +338,7 @@ def sweep_job(args, fs):
             continue
         try:
             with open(name, 'rb') as f:
-                d = pickle.load(f)
+                d = pickle.loads(f.read())
             ok = isinstance(d, dict) and isinstance(d.get(R), dict) and d[R].get('stubL0', {}).get('ref') == '7' \
                 and sorted(d[R]) == ['stubL0']
         except Exception as e:
@@ -397,6 +401,7 @@ class Sim(object):
         self.fault_then_jobs = 0
         self.plan_digest = []
         self.pending_corrupt = {}      # file -> kind, until somebody reads it
+        self._io = None
         os.makedirs(self.root)
         for i in range(self.m):
             self.write_doc(i)
@@ -542,7 +547,16 @@ class Sim(object):
                         self.info['dict_without_renderer'] = 1
                     del self.pending_corrupt[fname]
                     self.note_fault()
-        if crash is not None:
+        self._io = None
+        if crash is not None and crash.get('ioerr'):
+            self.count(self.configured, 'ioerr')
+            if st == 'ok' and 'ioerr-fired' in out['fs']['marks']:
+                self.count(self.fired, 'ioerr')
+                self._io = {'kind': self._ckind, 'path': self._cpath, 'win': self._cwin}
+                self.plan_digest.append(['ioerr', i, R, crash['event'], crash.get('tear'), self._ckind, crash.get('errno')])
+                self.info['ioerr_' + self._ckind.replace('-', '_')] = 1
+                self.note_fault()
+        elif crash is not None:
             self.count(self.configured, 'crash')
             if st == 'crashed':
                 self.count(self.fired, 'crash')
@@ -609,7 +623,8 @@ class Sim(object):
         paux = [e for e in log if e[2] and name in str(e[2]) and e[0] >= marks.get('persist', 0)]
         render = [e for e in log if marks.get('render', 0) <= e[0] < marks.get('persist', len(log))]
         early = [e for e in log if e[0] < marks.get('render', 0)]
-        win = {'paux': paux, 'render': render, 'any': log, 'early': early}.get(plan['window']) or log
+        restore = [e for e in early if e[1] == 'open-r' and str(e[2]).endswith('.paux')]
+        win = {'paux': paux, 'render': render, 'any': log, 'early': early, 'restore': restore}.get(plan['window']) or log
         ev = win[plan['k'] % len(win)]
         tear = plan.get('tear', 0)
         self._ckind = ev[1]
@@ -622,6 +637,8 @@ class Sim(object):
             tear = min(tear, ln)
             self._ctorn = tear < ln
         self._dry = out
+        if plan.get('ioerr'):
+            return {'event': ev[0], 'tear': max(0, tear), 'ioerr': True, 'errno': plan.get('errno', 28)}
         return {'event': ev[0], 'tear': tear}
 
     def after_crash(self, i, R, name):
@@ -672,7 +689,7 @@ class Sim(object):
             p = self.path(name)
             try:
                 with open(p, 'rb') as f:
-                    snap[name] = pickle.load(f)
+                    snap[name] = pickle.loads(f.read())
             except Exception:
                 snap[name] = None
         return snap
@@ -725,6 +742,8 @@ class Sim(object):
                     return
                 continue
             got = dict((lab, (d['ref'], d['title'], d['url'])) for lab, d in byfile.get(fname, {}).items())
+            if self._io and self._io['path'] == fname and not got:
+                continue        # the read of exactly this file failed (injected EIO): its labels may be absent
             if self.xr:
                 continue        # xr replaces the restored nodes by dicts from all blocks; judged below
             if fm['fuzzy']:
@@ -777,11 +796,22 @@ class Sim(object):
                     return
                 if gotv is not None:
                     self.info['xr_resolved'] = 1
+        if self._io and self._io['win'] == 'paux' and self._io['kind'] in ('open-w', 'write', 'close', 'open-x', 'rename', 'remove'):
+            # the save itself failed with an I/O error (disk full ...): the run went on (I1 held); the file holds the
+            # old content, a short write or nothing, exactly like after a crash - it must heal at the next save
+            fm = self.files[name]
+            old = [dict(c) for c in fm['cands']] if fm['state'] == 'clean' else []
+            fm.update(state='dirty', cands=old + [{}])
+            self.info['save_failed_run_continued'] = 1
+            return
+        if self._io and self._io['win'] == 'paux' and self._io['kind'] == 'open-r':
+            # the read-back of the old file failed: the tolerant reload starts afresh, other renderers' blocks may be gone
+            self.files[name]['state'] = 'dirty'
         # I5 heals: the file is complete and loadable again, block R equals what was saved
         p = self.path(name)
         try:
             with open(p, 'rb') as f:
-                d = pickle.load(f)
+                d = pickle.loads(f.read())
             ok = isinstance(d, dict) and isinstance(d.get(R), dict)
         except Exception as e:
             d, ok = repr(e), False
